@@ -4,11 +4,14 @@ import (
 	"bytes"
 	"fmt"
 	"net/netip"
+	"sort"
 	"strconv"
+	"strings"
 
 	"github.com/cilium/statedb"
 	"github.com/cilium/statedb/index"
 	"github.com/cilium/statedb/lpm"
+	"github.com/cilium/statedb/part"
 )
 
 func init() { suites["enc"] = SuiteDef{Gen: genEnc, NewExec: func(string) Exec { return &encExec{} }} }
@@ -210,6 +213,39 @@ func genEnc(cfg Config, emit func(string, bool, []string)) {
 		ops = append(ops, fmt.Sprintf("netip %s %d", hx(d), l))
 	}
 	emit("netip", true, ops)
+
+	// KeySet constructors (index/keyset.go, string.go, map.go, set.go, seq.go): every key of the
+	// collection is visited by Foreach and found by Exists, also empty keys, repeated keys, sets of
+	// one / zero elements
+	ops = nil
+	ctors := []string{"new", "strslice", "stringerslice", "seq", "seq2", "stringerseq", "stringerseq2", "set", "stringmap"}
+	nks := 120
+	if cfg.Thorough() {
+		nks = 1200
+	}
+	for i := 0; i < nks; i++ {
+		n := r.IntN(5)
+		if i%7 == 0 {
+			n = r.IntN(2)
+		}
+		var keys []string
+		for j := 0; j < n; j++ {
+			k := make([]byte, r.IntN(3))
+			for x := range k {
+				k[x] = "ab"[r.IntN(2)]
+			}
+			if r.IntN(5) == 0 {
+				k = nil
+			}
+			keys = append(keys, hx(k))
+		}
+		probe := hx([]byte{"ab"[r.IntN(2)]})
+		if r.IntN(3) == 0 {
+			probe = "x"
+		}
+		ops = append(ops, fmt.Sprintf("ks %s %s %s", ctors[i%len(ctors)], probe, strings.Join(keys, ",")))
+	}
+	emit("keysets", true, ops)
 }
 
 type encExec struct{ netipSeen map[string]string }
@@ -386,6 +422,108 @@ func (e *encExec) Do(o *Out, f []string) string {
 				fmt.Sprintf("index.Int(%d) and index.Int(%d) give equal keys=%v", a, b, eq))
 		}
 		return fmt.Sprintf("%s %v", hx(ka), eq)
+	case "ks":
+		// ks <constructor> <probe key> <k1,k2,...>
+		var elems []string
+		if len(f) > 3 && f[3] != "" {
+			for _, h := range strings.Split(f[3], ",") {
+				elems = append(elems, string(unhx(h)))
+			}
+		}
+		seq := func(yield func(string) bool) {
+			for _, e := range elems {
+				if !yield(e) {
+					return
+				}
+			}
+		}
+		seq2 := func(yield func(ksStringer, int) bool) {
+			for i, e := range elems {
+				if !yield(ksStringer(e), i) {
+					return
+				}
+			}
+		}
+		var ks index.KeySet
+		ordered := true
+		switch f[1] {
+		case "new":
+			var keys []index.Key
+			for _, e := range elems {
+				keys = append(keys, index.String(e))
+			}
+			ks = index.NewKeySet(keys...)
+		case "strslice":
+			ks = index.StringSlice(elems)
+		case "stringerslice":
+			var ss []ksStringer
+			for _, e := range elems {
+				ss = append(ss, ksStringer(e))
+			}
+			ks = index.StringerSlice(ss)
+		case "seq":
+			ks = index.Seq(index.String, seq)
+		case "seq2":
+			ks = index.Seq2(func(s ksStringer) index.Key { return index.String(string(s)) }, seq2)
+		case "stringerseq":
+			ks = index.StringerSeq(func(yield func(ksStringer) bool) {
+				for _, e := range elems {
+					if !yield(ksStringer(e)) {
+						return
+					}
+				}
+			})
+		case "stringerseq2":
+			ks = index.StringerSeq2(seq2)
+		case "set":
+			ks = index.Set(part.NewSet(elems...))
+			ordered = false
+		case "stringmap":
+			m := map[string]int{}
+			for i, e := range elems {
+				m[e] = i
+			}
+			ks = index.StringMap(m)
+			ordered = false
+		default:
+			return "bad-op"
+		}
+		var got []string
+		ks.Foreach(func(k index.Key) { got = append(got, string(k)) })
+		want := append([]string{}, elems...)
+		if !ordered {
+			// a set / a map: each distinct element once, in an order of its own
+			seen := map[string]bool{}
+			want = nil
+			for _, e := range elems {
+				if !seen[e] {
+					seen[e] = true
+					want = append(want, e)
+				}
+			}
+			sort.Strings(want)
+			sort.Strings(got)
+		}
+		if strings.Join(hxs(got), ",") != strings.Join(hxs(want), ",") {
+			o.Fail("C04", "keyset-incomplete", map[string]string{"constructor": f[1]}, fmt.Sprintf("index.%s over %v: Foreach visits %v", f[1], hxs(want), hxs(got)))
+		}
+		for _, e := range want {
+			if !ks.Exists(index.String(e)) {
+				o.Fail("C04", "keyset-incomplete", map[string]string{"constructor": f[1], "op": "exists"}, fmt.Sprintf("index.%s over %v: Exists(%s) is false", f[1], hxs(want), hx([]byte(e))))
+			}
+		}
+		probe := string(unhx(f[2]))
+		ex := ks.Exists(index.String(probe))
+		wantEx := false
+		for _, e := range want {
+			if e == probe {
+				wantEx = true
+			}
+		}
+		if ex != wantEx {
+			o.Fail("C04", "keyset-exists", map[string]string{"constructor": f[1], "empty_probe": strconv.FormatBool(probe == "")}, fmt.Sprintf("index.%s over %v: Exists(%s)=%v", f[1], hxs(want), hx([]byte(probe)), ex))
+		}
+		return fmt.Sprintf("%s %v", strings.Join(hxs(got), ","), ex)
 	case "bool":
 		if bytes.Equal(index.Bool(false), index.Bool(true)) {
 			o.Fail("C18", "bool-injective", nil, "Bool(false) == Bool(true)")
@@ -468,4 +606,16 @@ func (e *encExec) Do(o *Out, f []string) string {
 		return fmt.Sprintf("%s %s %d", hx(key), hx(data), pl)
 	}
 	return "bad-op"
+}
+
+type ksStringer string
+
+func (s ksStringer) String() string { return string(s) }
+
+func hxs(ss []string) []string {
+	out := make([]string, len(ss))
+	for i, s := range ss {
+		out[i] = hx([]byte(s))
+	}
+	return out
 }
